@@ -114,7 +114,13 @@ def r3b_find_files_filter(P, rep, ctx, rule="C03.R3"):
     ok = len(rets) == 1
     detail = ""
     if ok:
-        lf = f.list_filter(rets[0])
+        rv = rets[0]
+        # (only WHICH files are reported matters here, not their order: `sorted(..)` / `list(..)` around the filter is transparent)
+        while isinstance(rv, ast.Call) and isinstance(rv.func, ast.Name) and rv.func.id in ("sorted", "list", "tuple") and len(rv.args) == 1 and not any(k.arg == "key" and False for k in rv.keywords):
+            rv = rv.args[0]
+        if isinstance(rv, ast.GeneratorExp):
+            rv = ast.copy_location(ast.ListComp(elt=rv.elt, generators=rv.generators), rv)
+        lf = f.list_filter(rv)
         ok = lf is not None and ".glob(" in lf["src"]
         if ok:
             cj = [norm(c_) for c_ in M.conjuncts(lf["kept"])]
